@@ -582,13 +582,13 @@ pub fn check(s: &Scenario) -> CheckResult {
         Scenario::AxleNew(n) => check_axle(*n),
         Scenario::AxleIndex { n, index } => check_axle_index(*n, *index),
         Scenario::LiveTarget(which) => {
-            let r = match which % 5 {
+            let r = match which % 7 {
                 2 => crate::c17::statics(),
                 v @ (0 | 1) => crate::c17::lock_held(v),
                 v => crate::c17::lock_held(v - 1),
             };
             match r {
-                Ok(()) => Ok(CaseInfo::new(true, hash_of(&("live-target", which % 5))).class("target cannot be replaced under a live borrow")),
+                Ok(()) => Ok(CaseInfo::new(true, hash_of(&("live-target", which % 7))).class("target cannot be replaced under a live borrow")),
                 Err(v) => Err(Violation::new(format!("C16/lifetime/live-target/{}", v.key.trim_start_matches("C17/")), v.message)),
             }
         }
@@ -641,7 +641,7 @@ impl Property for C16 {
                 n += 1;
             }
         }
-        for which in 0..5u8 {
+        for which in 0..7u8 {
             sink(Scenario::LiveTarget(which));
             n += 1;
         }
